@@ -57,6 +57,8 @@ type result struct {
 	Publication *pubFacts `json:"publication"`
 	// channel discipline: send / close sites and the protocol that justifies each send (see chan.go)
 	Channel *chanFacts `json:"channel"`
+	// escaping values that share guarded memory
+	Escape *escapeFacts `json:"escape"`
 	// field -> mutex of its struct that guards it (configured or inferred)
 	GuardedBy []guardedByOut `json:"guarded_by"`
 	// mutable fields of mutex-bearing structs never seen accessed under the mutex (not checked; informational)
@@ -267,6 +269,7 @@ func (a *analyzer) result() *result {
 	}
 	r.Publication = a.pubResult()
 	r.Channel = a.chanResult()
+	r.Escape = a.escapeResult(a.fns)
 	r.Stats["contexts"] = a.contexts
 	r.Stats["guarded_access_kinds_seen_with_guard_held"] = len(a.guardedOK)
 	for k, v := range a.notes {
@@ -461,6 +464,9 @@ func emitCoq(r *result) string {
 	}
 	if r.Channel != nil {
 		sb.WriteString(emitChanCoq(r))
+	}
+	if r.Escape != nil {
+		sb.WriteString(emitEscapeCoq(r.Escape))
 	}
 	return sb.String()
 }
